@@ -4,6 +4,7 @@ from __future__ import annotations
 import copy
 
 import common as C
+import fault_probes as FP
 import engine_common as E
 import engine_extract
 from engine_common import M, seq
@@ -199,12 +200,26 @@ def gen(rng):
 _ENUM = None
 
 
+def _probe_c08(sc, o):
+    """RunEngineInterrupted <=> the engine is paused (resumable) or the plan was terminated; judged on each blocking call"""
+    bad = []
+    for r in o["returns"]:
+        if r[1] == "raise:RunEngineInterrupted" and r[2] not in ("paused", "idle"):
+            bad.append((f"interrupted-but-{r[2]}", f"{r[0]} raised RunEngineInterrupted while the engine was in state {r[2]!r} (neither paused nor idle)"))
+    return bad
+
+
+PROBE_JUDGES = [FP.ends_usable, _probe_c08]
+
+
 def run(ctx, model=True):
     global _ENUM
     if _ENUM is None:
         _ENUM = enumerate_all()
     extra = _ENUM if (ctx.tier == "thorough" or ctx.deep) else ctx.rng.sample(_ENUM, 50)
-    return E.run_property(ctx, "C08", oracle, gen=gen, quick=60, thorough=2000, model=model, extra_scenarios=extra)
+    res = E.run_property(ctx, "C08", oracle, gen=gen, quick=60, thorough=2000, model=model, extra_scenarios=extra)
+    FP.run_probes(ctx, res, PROBE_JUDGES, ["pause-hook", "teardown-request"], 10, 150)
+    return res
 
 
 def run_impl_only(ctx):
@@ -212,4 +227,6 @@ def run_impl_only(ctx):
 
 
 def replay(ctx, data):
+    if FP.is_probe(data):
+        return FP.replay_probe(ctx, data, PROBE_JUDGES)
     return E.replay_property(ctx, data, oracle)
